@@ -12,19 +12,48 @@ TB = ("Trusted base: rustc nightly front end and MIR construction (mir_promoted 
 
 CLAIMED = {
     # id: (technique, what the check gives, design section)
-    "C05": ("MIR CFG path rule (register -> barrier -> re-check -> park; lock-based variant via must-held guard analysis) over slot tables",
-            "At every one of the park sites of fibre (enumerated from the resolved program; an uncovered park site fails the check) the "
-            "blocking protocol has the shape that excludes the classic lost-wakeup window on every control-flow path. Static rule verdicts, "
-            "not a liveness proof.", "§4 C05"),
+    "C01": ("must-held guard analysis (handoff under the channel lock), edge-dominance (timed receive), payload publication order + release/acquire discipline on synchronisation fields, backward data-flow (unsent derives from input), auto-trait/receiver-kind facts",
+            "Four structural clauses over the point-to-point channels: waiter-state transitions and transfer helpers only under the channel mutex; Timeout only behind a successful "
+            "withdrawal; every payload write followed by a >=Release publish and every payload read preceded by a >=Acquire guard, with all ~200 sites on synchronisation fields at "
+            "the required strength; batch errors carry the caller's items; single-endpoint handles are exclusive by type. Multiset equality of sent/received values is not decided.", "§4 C01"),
+    "C03": ("edge-dominance of value-carrying commits by the admission predicate; must-held guard analysis",
+            "Admission-gate shape at the 20 commit sites whose admission predicate is a call (mpsc-bounded credit, mpmc-bounded fullness under the lock, oneshot CAS, rendezvous pairing). "
+            "SPSC/SPMC index arithmetic and len()<=capacity as numbers are not decided.", "§4 C03"),
+    "C04": ("interprocedural closed-gate dominance over every send/receive form and future, counter inc/dec pairing for Clone handles, data-flow of the closed flag through conversions, flag-won edge dominance in Drop/close",
+            "Every operation of all 42 handle types (and the poll of every future holding a handle) consults that handle's closed flag; Clone handles are counted and the last-handle test "
+            "is branched on; conversions carry the closed state; Drop/close act only when they won the flag. Drain-before-Disconnected ordering is not decided.", "§4 C04"),
+    "C05": ("MIR CFG path rule (register -> barrier -> re-check -> park; lock-based variant via must-held guard analysis), SeqCst-fence-dominates-gate rule, publish=>notify must-follow rows",
+            "At every park site of fibre (an uncovered park site fails the check) the blocking protocol excludes the classic lost-wakeup window on every path; every notifier gate read follows a "
+            "SeqCst fence; every publishing event is followed by its notifier. Static rule verdicts, not a liveness proof.", "§4 C05"),
+    "C06": ("dominance of every Poll::Pending by a registration that consumes the current Context/waker; call-graph pairing of registration kinds with Drop withdrawals; wake-forwarding reachability",
+            "All 58 hand-written Pending sites re-register the current waker; every future type whose registration is pointer-held or wake-metered withdraws it on Drop (and on forget-conversions); "
+            "wake-one protocols forward a consumed wake (11 demonstrated known findings).", "§4 C06"),
+    "C07": ("auto-trait/receiver-kind facts, payload publication order + release/acquire discipline on the spmc module, must-held guard analysis on the cursor list",
+            "Single-producer exclusivity by type, publish order/strength of the broadcast ring, and cursor-list maintenance on clone/drop of receivers. Per-receiver delivery order is not decided.", "§4 C07"),
+    "C08": ("the C04 rule instances restricted to the topic handles + call-graph reachability (publishing reaches no blocking primitive)",
+            "Disconnect-protocol clauses on the four topic handle types and publish-never-waits. Routing by subscription history is not decided.", "§4 C08"),
+    "C09": ("field-set equality at mem::forget(self) (ptr::read multiset vs drop-glue fields), type selector + Drop reachability for payload owners, must-follow for reclaimed items",
+            "All 40 forget-conversions move each owning field exactly once; every payload-owning storage type drains on Drop; recovered items re-enter.", "§4 C09"),
+    "C10": ("edge-dominance of guard construction by acquisition success, ordering floors on lock-word RMWs, park/Pending protocol path rule, must-held guard analysis in Drop of lock futures, impl/field-access facts",
+            "Six clauses over HybridMutex/HybridRwLock: guards only after acquisition, release strength, release-before-wake, queue-and-recheck before sleeping (sync and async), cancel-safe unlink "
+            "and wake forwarding, ReadGuard has no DerefMut / node fields private to the wait queue / try_ variants cannot park.", "§4 C10"),
+    "C11": ("guard-flow (the acquired write guard is the one moved into the Entry), Arc::get_mut success-edge dominance for compute, effect-multiset sibling comparison of blocking vs async handles",
+            "Entry check-and-insert is one critical section; compute runs only with exclusive access under the write guard; 32 blocking/async method pairs perform identical cache effects. "
+            "Per-key linearizability is not decided.", "§4 C11"),
+    "C12": ("edge-dominance of every value read by the not-expired edge of is_expired on the same entry (or the stale-while-revalidate branch), Expired-reason justification, call-graph reachability for peek",
+            "Every value read of a looked-up entry is behind the expiry gate; Expired removals are justified by the deadline; peek refreshes nothing (3 demonstrated known findings).", "§4 C12"),
+    "C13": ("must-follow + backward data-flow (subtracted amount derives from the removed entry's cost), who-may-write the counter, insertion=>policy event, must-held guard analysis for maintenance",
+            "Removal=>subtract-that-entry's-cost at all 21 map mutation sites, only map-mutating code writes current_cost, every insertion is announced to the policy, maintenance runs under the shard's maintenance lock.", "§4 C13"),
     "C15": ("MIR must-held guard analysis + dominator rules on the loader bodies",
-            "Leader election is one critical section, insert -> remove marker -> complete order, and completion/waiter registration share "
-            "one mutex, on every path of the four leader-election sites, both loader bodies and both waiter forms.", "§4 C15"),
-    "C16": ("MIR edge-dominance + backward data-flow (value of the notification derives from the removed entry) + exactly-once path rule",
-            "Every listener notification site is tied to the success edge of a shard-map removal, carries that entry's value, uses the "
-            "reason that belongs to its remover, and each listed removal is notified exactly once when a sender is configured.", "§4 C16"),
+            "Leader election is one critical section, insert -> remove marker -> complete order, and completion/waiter registration share one mutex.", "§4 C15"),
+    "C16": ("edge-dominance + backward data-flow (notification value derives from the removed entry) + exactly-once path rule",
+            "Every listener notification is tied to the success edge of a removal, carries that entry's value and the remover's reason, exactly once per listed removal.", "§4 C16"),
+    "C17": ("the C12 expiry-gate instances of iterators/snapshots + restore-is-an-insertion rows",
+            "Everything iterators and snapshots yield is expiry-gated; restore accounts cost, uses the store's shard index, and must announce entries to the policy (1 demonstrated known finding).", "§4 C17"),
     "C18": ("who-may-use rule on the singleton factory field, must-held guard analysis for the cycle guard, field-read sets of eq/hash, sibling effect-sequence agreement",
-            "Once-cell discipline, cycle guard coverage, key identity, overwrite-on-register and Container/LocalContainer agreement over "
-            "both feature configurations of fibre_ioc.", "§4 C18"),
+            "Once-cell discipline, cycle guard coverage, key identity, overwrite-on-register and Container/LocalContainer agreement over both feature configurations of fibre_ioc.", "§4 C18"),
+    "C19": ("call-graph reachability (both front ends reach process_event), who-may-write the appender channels, one-send-per-iteration path rule, Block-arm edge region",
+            "One delivery path, each selected appender written once per event by the designated helper, Block policy performs the blocking send. Routing as a function of configuration and the shutdown window are not decided.", "§4 C19"),
 }
 
 NOT_APPLICABLE = {
